@@ -35,6 +35,9 @@ CONSTANTS Lens,      \* message lengths
                      \* packets arrive TOGETHER in the receiver's read buffer -- in particular the packet that crosses the
                      \* capacity (or any other packet that stops the connection) in front of small EOF packets of the
                      \* same and of other channels
+          StopMode,  \* "off", or "drain": the sender's send routine is asleep (messages are only queued: TrySend accepted
+                     \* them, nothing has been packetised yet) and then the connection is closed gracefully with FlushStop
+          StopLimit, \* 0 = FlushStop as specified;  k = it drains at most k packets (MConn!CanDrain), must violate Inv
           Injects    \* kinds of foreign packets (MConn!InjectKinds) of which one may appear in the stream
 
 VARIABLES m, nt, nu, hist
@@ -48,11 +51,15 @@ MustRecv   == EagerRecv /\ CanRecv(m)
 Out(x)     == IF Batching = "each" THEN FlushOp(x) ELSE x
 
 DoSend == \E c \in Ch, n \in Lens :
-            /\ ~MustRecv /\ m.nid <= MaxMsgs
+            /\ ~MustRecv /\ m.nid <= MaxMsgs /\ ~m.draining /\ (m.sclosed => Len(hist) > 0 /\ hist[Len(hist)][1] # "send")
             /\ LET r == SendOp(m, c, n) IN Step(r, <<"send", c, n, r.res, 0>>)
             /\ UNCHANGED <<nt, nu>>
+DoFlushStop == /\ ~MustRecv /\ StopMode = "drain" /\ ~m.sclosed /\ ~m.draining /\ m.nid > 1
+               /\ m' = FlushStopBegin(m) /\ hist' = Append(hist, <<"flushstop", 0, 0, "", 0>>) /\ UNCHANGED <<nt, nu>>
+DoDrain     == /\ ~MustRecv /\ CanDrain(m, StopLimit) /\ m' = Out(DrainStep(m)) /\ UNCHANGED <<nt, nu, hist>>
+DoStopEnd   == /\ ~MustRecv /\ m.draining /\ ~CanDrain(m, StopLimit) /\ m' = FlushStopEnd(m) /\ UNCHANGED <<nt, nu, hist>>
 DoPkt  == \E c \in Ch :
-            /\ ~MustRecv /\ Pending(m, c) /\ (Sched = "prio" => c = LeastRatio(m))
+            /\ ~MustRecv /\ StopMode = "off" /\ Pending(m, c) /\ (Sched = "prio" => c = LeastRatio(m))
             /\ IF Frag = "max"
                THEN LET r == SendPacketOp(m, c) IN
                     /\ m' = Out(r.st)
@@ -74,7 +81,7 @@ DoRecv == /\ CanRecv(m)
           /\ LET r == RecvPacketOp(m)  pk == NextPacket(m) IN Step(r, <<"recv", pk.c, pk.len, r.res, pk.id>>)
           /\ UNCHANGED <<nt, nu>>
 
-Next == DoSend \/ DoPkt \/ DoFlush \/ DoTick \/ DoInject \/ DoRecv
+Next == DoSend \/ DoFlushStop \/ DoDrain \/ DoStopEnd \/ DoPkt \/ DoFlush \/ DoTick \/ DoInject \/ DoRecv
 Spec == Init /\ [][Next]_vars
 \* recentlySent only matters to the code's scheduler
 View == <<IF Sched = "any" THEN [m EXCEPT !.recent = [c \in Ch |-> 0]] ELSE m, nt, nu>>
